@@ -7,6 +7,7 @@ import DimodProofs.EnumInit
 import DimodProofs.EnumPost
 import DimodProofs.Anneal
 import DimodProofs.AnnealDelta
+import DimodProofs.AnnealColor
 
 /-! # C07 — samplers and composites report each row's true energy over the right variables
 
@@ -255,6 +256,17 @@ theorem sa_delta_is_energy_change (h : List (Label × Rat)) (J : List (Label × 
     (hh : (h.map (·.1)).Nodup) (hJ : SimpleJ J) :
     diffH h spins v + diffJ J spins v = isingE h J (flipSpin (dictGet spins) v) - isingE h J (dictGet spins) :=
   delta_is_energy_change h J spins v hh hJ
+
+/-- **greedy_coloring, as coded** (first variable with the fewest remaining colours, its smallest colour, that colour
+    struck from its uncoloured neighbours): the loop never gets stuck, every variable ends up in exactly one colour
+    class, and two variables of one class are never adjacent — so within a class the energy differences computed before
+    the flips stay valid while the class is processed, and a variable is visited exactly once per sweep -/
+theorem greedy_coloring_total_and_proper (h : List (Label × Rat)) (J : List (Label × Label × Rat))
+    (hh : (h.map (·.1)).Nodup) (hJ : ∀ t ∈ J, t.1 ≠ t.2.1) :
+    ((colouring (colorClasses h J)).map (·.1)).Perm (h.map (·.1)) ∧
+    (∀ c ∈ colorClasses h J, ∀ u ∈ c.2, ∀ w ∈ c.2, w ∉ nbrs J u) ∧
+    (∀ v w, w ∈ nbrs J v ↔ v ∈ nbrs J w) :=
+  ⟨colorClasses_total h J hh hJ, colorClasses_proper h J hh hJ, fun v w => nbrs_symm J v w⟩
 
 /-- **SimulatedAnnealingSampler.sample**, whatever the draws: one row per read; every row is over exactly the
     problem's variables, every value lies in the domain of the problem's vartype, and the reported energy is the
